@@ -178,7 +178,7 @@ func c11PartialDiff(f *fit.File, want map[uint16][]string) string {
 
 func runC11(w *vx.W) {
 	crcStreams()
-	streams := []namedStream{sMin12, sMin14, sMin14z, sAct3, sAct3BE, sSet, sZero, sDev, sMonState, sChain2, sChain2b, sChain3, sChainZero, sChainState, sCRChi0, sCRClo0, sCRC00, sChainCRC0}
+	streams := []namedStream{sMin12, sMin14, sMin14z, sAct3, sAct3BE, sSet, sZero, sDev, sMonState, sChain2, sChain2b, sChain3, sChainZero, sChainState, sCRChi0, sCRClo0, sCRC00, sChainCRC0, sLongFields, sLongFieldsL}
 	if !w.Quick() {
 		streams = append(streams, sBig, sChainBig, s8192)
 	}
@@ -204,7 +204,8 @@ func runC11(w *vx.W) {
 		first := s.Members[0]
 		hs := int(first[0])
 		for off := 0; off <= len(s.B); off++ {
-			if len(s.B) > 2000 && off > 300 && off < len(s.B)-300 && off%97 != 0 && off%4096 > 2 && off%4096 < 4094 {
+			if len(s.B) > 2000 && off > 300 && off < len(s.B)-300 && off%97 != 0 && off%4096 > 2 && off%4096 < 4094 &&
+				!((s.Name == sLongFields.Name || s.Name == sLongFieldsL.Name) && off > 3800 && off < 4600 && off%3 == 0) {
 				continue
 			}
 			for _, kind := range kinds {
